@@ -86,7 +86,7 @@ fn tilejson(rng: &mut Rng) -> TileJSON {
 
 pub const CONTAINERS: [&str; 5] = ["versatiles", "pmtiles", "mbtiles", "tar", "dir"];
 
-pub struct RoundTrip<'a> { pub rt: &'a tokio::runtime::Runtime, pub dir: std::path::PathBuf }
+pub struct RoundTrip<'a> { pub rt: &'a tokio::runtime::Runtime, pub dir: std::path::PathBuf, pub lines: std::cell::RefCell<Vec<String>>, pub indep: bool }
 
 impl<'a> RoundTrip<'a> {
 	/// writes `tiles` with the given container and parameters, reopens, checks everything
@@ -111,6 +111,7 @@ impl<'a> RoundTrip<'a> {
 			Ok(Ok(())) => {}
 		}
 		*stats.entry(format!("written:{container}")).or_insert(0) += 1;
+		if self.indep { self.independent_decode(&desc, container, &path, &stored, &expect_pyramid, format, comp, viol, stats); }
 		let r = guarded(|| self.rt.block_on(get_reader(&pstr)));
 		let reader = match r {
 			Err(m) => { viol.push(V { kind: "open-panic".into(), input: desc.clone(), detail: m }); return; }
@@ -188,6 +189,53 @@ impl<'a> RoundTrip<'a> {
 	}
 }
 
+impl<'a> RoundTrip<'a> {
+	/// C01, second half: a decoder written from the published layout recovers the same mapping
+	#[allow(clippy::too_many_arguments)]
+	fn independent_decode(&self, desc: &str, container: &str, path: &std::path::Path, stored: &TileMap, pyramid: &TileBBoxPyramid, format: TileFormat, comp: TileCompression, viol: &mut Vec<V>, stats: &mut BTreeMap<String, u64>) {
+		use crate::indep;
+		let nonempty: TileMap = stored.iter().filter(|(_, d)| !d.is_empty()).map(|(c, d)| (*c, d.clone())).collect();
+		let ext = format!("{}{}", format.extension(), comp.extension());
+		let r: Result<(indep::TileMap, String)> = (|| Ok(match container {
+			"versatiles" => { let d = indep::dec_versatiles(&std::fs::read(path)?)?;
+				let fb = match format { TileFormat::BIN => 0x00u8, TileFormat::PNG => 0x10, TileFormat::JPG => 0x11, TileFormat::WEBP => 0x12, TileFormat::AVIF => 0x13, TileFormat::SVG => 0x14, TileFormat::PBF => 0x20, TileFormat::GEOJSON => 0x21, TileFormat::TOPOJSON => 0x22, TileFormat::JSON => 0x23 };
+				let cb = match comp { TileCompression::Uncompressed => 0u8, TileCompression::Gzip => 1, TileCompression::Brotli => 2 };
+				// correspondence with the Coq layout model: block grid and slot occupancy
+				let slots: u64 = pyramid.iter_levels().map(|b| b.count_tiles()).sum();
+				if nonempty.len() <= 400 && slots <= 200_000 {
+					let lv: Vec<String> = pyramid.iter_levels().map(|b| format!("{}:{},{},{},{}", b.level, b.x_min, b.y_min, b.x_max, b.y_max)).collect();
+					let mut tl: Vec<String> = nonempty.keys().map(|(z, x, y)| format!("{z},{x},{y}")).collect(); tl.sort();
+					let mut bl: Vec<String> = d.blocks.iter().map(|b| format!("{},{},{},{},{},{},{}:{}", b.z, b.bx, b.by, b.x0, b.y0, b.x1, b.y1, rle(&b.occ))).collect(); bl.sort();
+					self.lines.borrow_mut().push(format!("vtblocks {} {} => {}", lv.join(";"), if tl.is_empty() { "-".into() } else { tl.join(";") }, bl.join(";")));
+				}
+				(d.tiles, if d.format == fb && d.compression == cb { ext.clone() } else { format!("format byte {:#x} compression byte {}", d.format, d.compression) }) }
+			"pmtiles" => { let d = indep::dec_pmtiles(&std::fs::read(path)?)?;
+				let tt = match format { TileFormat::PBF => 1u8, TileFormat::PNG => 2, TileFormat::JPG => 3, TileFormat::WEBP => 4, TileFormat::AVIF => 5, _ => 0 };
+				let tc = match comp { TileCompression::Uncompressed => 1u8, TileCompression::Gzip => 2, TileCompression::Brotli => 3 };
+				if d.clustered && !d.in_order { viol.push(V { kind: "pmtiles-clustered-flag".into(), input: desc.into(), detail: "header says clustered = 1 but tile data is not stored in tile-id order".into() }); }
+				(d.tiles, if d.tile_type == tt && d.tile_compression == tc { ext.clone() } else { format!("tile type {} compression {}", d.tile_type, d.tile_compression) }) }
+			"tar" => { let (e, t, _) = indep::dec_tar(&std::fs::read(path)?)?; (t, e) }
+			"dir" => { let (e, t) = indep::dec_directory(path)?; (t, e) }
+			_ => { let (f, t) = indep::dec_mbtiles(path)?; (t, match (f.as_str(), format) { ("pbf", TileFormat::PBF) | ("png", TileFormat::PNG) | ("jpg", TileFormat::JPG) | ("webp", TileFormat::WEBP) => ext.clone(), _ => format!("metadata format {f:?}") }) }
+		}))();
+		*stats.entry("independent_decodes".into()).or_insert(0) += 1;
+		match r {
+			Err(e) => viol.push(V { kind: "layout".into(), input: desc.into(), detail: format!("a decoder written from the published layout cannot read the file: {e:#}") }),
+			Ok((got, decl)) => {
+				if decl != ext && !(container == "mbtiles") { viol.push(V { kind: "layout-declaration".into(), input: desc.into(), detail: format!("file declares {decl}, written as {ext}") }); }
+				if container == "mbtiles" && decl != ext { viol.push(V { kind: "layout-declaration".into(), input: desc.into(), detail: format!("file declares {decl}, written as {ext}") }); }
+				let got_ne: TileMap = got.into_iter().filter(|(_, d)| !d.is_empty()).collect();
+				if got_ne != nonempty {
+					let missing = nonempty.keys().filter(|k| !got_ne.contains_key(*k)).count(); let extra = got_ne.keys().filter(|k| !nonempty.contains_key(*k)).count();
+					let differ = nonempty.iter().filter(|(k, d)| got_ne.get(*k).map_or(false, |g| g != *d)).count();
+					viol.push(V { kind: "layout-content".into(), input: desc.into(), detail: format!("independent decoder: {missing} tiles missing, {extra} additional, {differ} with different bytes") });
+				}
+			}
+		}
+	}
+}
+fn rle(s: &str) -> String { let mut o = String::new(); let b = s.as_bytes(); let mut i = 0; while i < b.len() { let mut j = i; while j < b.len() && b[j] == b[i] { j += 1; } o.push_str(&format!("{}x{}.", b[i] as char, j - i)); i = j; } o }
+
 pub fn run(ctx: &Ctx, focus: &str) -> Result<()> {
 	let mut col = Collector::new(&ctx.out)?;
 	run_into(ctx, focus, &mut col)?;
@@ -201,14 +249,16 @@ pub fn run_into(ctx: &Ctx, focus: &str, col: &mut Collector) -> Result<()> {
 	let mut viol: Vec<V> = Vec::new();
 	let mut stats: BTreeMap<String, u64> = BTreeMap::new();
 	let mut rng = Rng::new(ctx.seed ^ 0xF00D);
-	let rtp = RoundTrip { rt: &rt, dir: dir.clone() };
+	let rtp = RoundTrip { rt: &rt, dir: dir.clone(), lines: Default::default(), indep: focus == "c01" };
 	let n = if ctx.thorough { 120 } else { 14 };
+	let mut all_coords: Vec<(u8, u32, u32)> = vec![];
 	let combos: [(TileFormat, TileCompression); 7] = [
 		(TileFormat::PBF, TileCompression::Gzip), (TileFormat::PNG, TileCompression::Uncompressed), (TileFormat::PBF, TileCompression::Brotli),
 		(TileFormat::PBF, TileCompression::Uncompressed), (TileFormat::JPG, TileCompression::Uncompressed), (TileFormat::WEBP, TileCompression::Uncompressed), (TileFormat::BIN, TileCompression::Gzip)];
 	for i in 0..n {
 		let big = ctx.thorough && i % 40 == 7;
 		let tiles = gen_tiles_shape(&mut rng, big, i as u64 % 7);
+		all_coords.extend(tiles.keys().cloned().take(60));
 		let tj = tilejson(&mut rng);
 		for c in CONTAINERS {
 			let (f, k) = if c == "mbtiles" { combos[(i as usize) % 2] } else { combos[(i as usize + c.len()) % combos.len()] };
@@ -217,7 +267,8 @@ pub fn run_into(ctx: &Ctx, focus: &str, col: &mut Collector) -> Result<()> {
 		}
 		*stats.entry(format!("tiles_{}", match tiles.len() { 0..=9 => "1-9", 10..=199 => "10-199", 200..=9999 => "200-9999", _ => "10000+" })).or_insert(0) += 1;
 	}
-	let _ = focus;
+	for l in rtp.lines.borrow().iter() { col.out.line(l); }
+	if focus == "c01" { let cs: Vec<(u8, u32, u32)> = all_coords.iter().cloned().take(3000).collect(); crate::pmcorr::lines(col, &mut rng, &cs, ctx.thorough); }
 	let _ = std::fs::remove_dir_all(&dir);
 	for x in &viol { col.violation(&x.kind, &x.input, &x.input, &x.detail); }
 	col.spec_cases += stats.get("roundtrips").copied().unwrap_or(0);
